@@ -1,5 +1,6 @@
 (* E1 — model of rpft/parsers/common/cellparser.py (CellParser), definitions only.
-   Constants esc_char, sep0, sep1, tmp_char come from the regenerated Gen/Tables.v. *)
+   Constants esc_char, sep0, sep1 and cleanse_tmp (the temporary character of cleanse, if the code
+   has one) come from the regenerated Gen/Tables.v. *)
 From Coq Require Import List NArith Bool.
 From RPFT Require Import Base.Sexp Base.PyStr Gen.Tables.
 Import ListNotations.
@@ -61,12 +62,39 @@ Definition split_by_separator (s : str) (sep : char) : split_res :=
 (* nested values: a string or a list *)
 Inductive nv := Str (s : str) | Lst (l : list nv).
 
-(* CellParser.cleanse on a string *)
-Definition cleanse_str (s : str) : str :=
-  replace1 tmp_char [esc_char]
+(* CellParser.cleanse on a string, as repaired: after strip, ONE left-to-right pass; a backslash
+   followed by a backslash or a separator is dropped and the character it protects is copied
+   verbatim, every other character is copied
+       while pos < len(string):
+           c = string[pos]
+           if c == ESC and pos + 1 < len(string) and string[pos + 1] in [ESC] + SEPARATORS:
+               pos += 1; c = string[pos]
+           output.append(c); pos += 1                                                        *)
+Fixpoint unescape (s : str) : str :=
+  match s with
+  | [] => []
+  | c :: r =>
+    match r with
+    | [] => [c]
+    | d :: r' => if (c =? esc_char) && is_special d then d :: unescape r' else c :: unescape r
+    end
+  end.
+
+(* CellParser.cleanse on a string, as it was before the repair: four successive str.replace calls
+   that park escaped backslashes in a temporary character t *)
+Definition unescape_phases (t : char) (s : str) : str :=
+  replace1 t [esc_char]
     (replace2 esc_char sep1 [sep1]
        (replace2 esc_char sep0 [sep0]
-          (replace2 esc_char esc_char [tmp_char] (strip s)))).
+          (replace2 esc_char esc_char [t] s))).
+
+(* which of the two the code has is read from the code on every run (Gen/Tables.v: cleanse_tmp =
+   Some t when cleanse goes through a temporary character t, None when it does not) *)
+Definition cleanse_str (s : str) : str :=
+  match cleanse_tmp with
+  | Some t => unescape_phases t (strip s)
+  | None => unescape (strip s)
+  end.
 
 Fixpoint cleanse (v : nv) : nv :=
   match v with
